@@ -871,7 +871,9 @@ class Model:
         cp = {}
         for c in self.cpus:
             running = [x for x in c.threads if x.state == ST_RUNNING]
-            cp[c.row] = (len(running), running[0].row if len(running) == 1 else None, c.virtual)
+            if len(running) == 1:
+                c.ever_selected = True
+            cp[c.row] = (len(running), running[0].row if len(running) == 1 else None, c.virtual, c.ever_selected)
         if self.snap and self.snap[-1][0] == t:
             self.snap[-1] = (t, ths, cp)
         else:
